@@ -553,6 +553,21 @@ func c18FlagRegions(c *Ctx, r *RuleResult, fd *ast.FuncDecl, flag types.Object, 
 		return out
 	}
 	n := 0
+	parentOf := map[ast.Node]ast.Node{}
+	{
+		var stack []ast.Node
+		ast.Inspect(fd.Body, func(x ast.Node) bool {
+			if x == nil {
+				stack = stack[:len(stack)-1]
+				return true
+			}
+			if len(stack) > 0 {
+				parentOf[x] = stack[len(stack)-1]
+			}
+			stack = append(stack, x)
+			return true
+		})
+	}
 	var visit func(node ast.Node)
 	visit = func(node ast.Node) {
 		ast.Inspect(node, func(x ast.Node) bool {
@@ -579,6 +594,31 @@ func c18FlagRegions(c *Ctx, r *RuleResult, fd *ast.FuncDecl, flag types.Object, 
 			default:
 				r.Undecided(ifs.Pos(), fname, "if "+cond, "a condition mixes the suggestion flag with other terms; not decided")
 				return false
+			}
+			// `if flag { A; return }; B` at the top level of a function body is `if flag { A } else { B }`
+			if ifs.Else == nil && len(ifs.Body.List) > 0 {
+				if ret, isRet := ifs.Body.List[len(ifs.Body.List)-1].(*ast.ReturnStmt); isRet && len(ret.Results) == 0 {
+					if blk, isBlk := parentOf[ifs].(*ast.BlockStmt); isBlk {
+						_, inLit := parentOf[blk].(*ast.FuncLit)
+						if inLit || blk == fd.Body {
+							idx := -1
+							for i, st := range blk.List {
+								if st == ast.Stmt(ifs) {
+									idx = i
+								}
+							}
+							if idx >= 0 {
+								rest := &ast.BlockStmt{List: blk.List[idx+1:]}
+								body := &ast.BlockStmt{List: ifs.Body.List[:len(ifs.Body.List)-1]}
+								if cond == flag.Name() {
+									disabledArm, enabledArm = body, rest
+								} else {
+									enabledArm, disabledArm = body, rest
+								}
+							}
+						}
+					}
+				}
 			}
 			inst := fmt.Sprintf("%s: if %s (#%d)", fname, cond, n)
 			dEff := collect(disabledArm, map[types.Object]bool{})
